@@ -882,3 +882,100 @@ def run(ctx):
     c06._x4_foreign_cache(ctx, clause='C05.d an array-level function returns the same result when called again on an object holding the same record '
                                        '(fresh object vs an object that generated its own spectrum with another transform length; bit for bit)')
     ctx.flush()
+
+
+# ---- round 9 (hx_r9c): records held in containers that are not plain ndarrays but hand NumPy their own buffer -----------------------------------
+# np.ma.MaskedArray, np.memmap (a file under .work/), a trivial ndarray subclass (also strided), np.recarray (view / field), an object with
+# __array__, array.array: np.asarray of these is ANOTHER object viewing the caller's memory, so "asarray returned something new" is not a copy.
+# Given to the constructor / reset_values / add_series they are arrays the caller passed in (C05.a): the usual ownership clauses, evaluated by the
+# same history machinery (in-place corrections afterwards, caller writes, reads in between).
+
+def _x5_shares(s, held):
+    try:
+        return bool(np.shares_memory(np.asarray(s.values), np.asarray(held)))
+    except Exception:  # noqa
+        return False
+
+
+def extras5(ctx):
+    rng = ctx.rng
+    report = ctx._c05_report
+    rows = table_rows()
+    quick = ctx.tier == 'quick'
+    inplace = [r for r in INPLACE_OPS if r in rows]
+    nd_kinds = [k for k in O.WRAP_KINDS if k not in ('__array__ wrapper', 'array.array')]
+    for rep in range(1 if quick else 8):
+        for kind in O.WRAP_KINDS:
+            for how in ('constructor', 'reset_values', 'add_series'):
+                if how != 'constructor' and (kind not in nd_kinds or how not in rows):
+                    continue
+                n = rng.choice([48, 64, 100])
+                dt = rng.choice([0.01, 0.02])
+                cls = 'Signal' if rng.random() < 0.2 else 'AccSignal'
+                vals = O.rec(rng, n)
+                if how == 'constructor':
+                    w = O.wrap_array(vals, kind)
+                    h = Own.__new__(Own)
+                    r = call_impl(Own.__init__, h, report, ctx, cls, w, dt, False)
+                    if r[0] != 'ok':
+                        ctx.hist('constructor-raised(%s):%s' % (kind, r[1]))
+                        continue
+                    h.start.update(ctor_wrap=kind, ctor_kind='%s (%s) holding float64 samples' % (type(w).__name__, kind))
+                    k = 0
+                else:
+                    h = run_history(ctx, report, cls, O.rec(rng, n), dt, [rng.choice(['pga', 'fa_spectrum', 'values'])] if cls == 'AccSignal' and rng.random() < 0.5 else [], rng, corr=False)
+                    if h is None or not h.do(how, {('values' if how == 'reset_values' else 'series'): vals.tolist(), 'wrap': kind}):
+                        ctx.hist('op-raised(%s)' % kind)
+                        continue
+                    k = len(h.held) - 1
+                    w = h.held[k]
+                ctx.hist('ownership5/%s given to %s' % (kind, how))
+                ctx.count_case(('x5-own', kind, how, vals.tobytes()[:64]), True, sample={'class': cls, 'container': kind, 'given to': how} if rep == 0 and how == 'constructor' else None)
+                sh = _x5_shares(h.s, w)
+                report(CL_NOSHARE, not sh, None if not sh else h.inputs(), {'after': how, 'container': kind}, {'operation': how, 'passed_by': [how], 'class': cls, 'container': kind})
+                ok = True
+                todo = [x for x in inplace if cls == 'AccSignal' or x in O.SIGNAL_METHODS]
+                for name, args in ((rng.choice(todo) if todo else 'caller_write', None), ('caller_write', {'k': k, 'index': rng.randrange(n)}),
+                                   (rng.choice(todo) if todo else 'caller_write', None)):
+                    if name == 'caller_write' and args is None:
+                        args = {'k': k, 'index': rng.randrange(n)}
+                    ok = h.do(name, args, rng=rng)
+                    if not ok:
+                        ctx.hist('op-raised:%s:%s' % h.failed)
+                        break
+                    sh = _x5_shares(h.s, w)
+                    report(CL_NOSHARE, not sh, None if not sh else h.inputs(), {'after': name, 'container': kind}, {'operation': name, 'passed_by': [how], 'class': cls, 'container': kind})
+        ctx.flush()
+
+
+_run_main5 = run
+_replay_case_r8 = replay_case
+
+
+def replay_case(ctx, payload):
+    inp = payload.get('inputs') or {}
+    if 'ctor_wrap' not in inp and 'history' in inp:     # a failure reported from inside the constructor step carries the container's type name only
+        tname = str(inp.get('ctor_kind', '')).split(':')[0].split(' ')[0]
+        wrap = {'MaskedArray': 'masked', 'memmap': 'memmap', '_PlainSub': 'subclass', 'recarray': 'recarray-view', 'ArrayHolder': '__array__ wrapper', 'array': 'array.array'}.get(tname)
+        if wrap:
+            inp = dict(inp, ctor_wrap=wrap)
+    if 'ctor_wrap' not in inp:
+        return _replay_case_r8(ctx, payload)
+    bad = []
+    h = Own(lambda clause, ok, inputs, detail, facts: None if ok else bad.append((clause, detail)), ctx, inp.get('cls', 'AccSignal'),
+            O.wrap_array(inp['ctor_values'], inp['ctor_wrap']), inp['dt'], corr=False)
+    if _x5_shares(h.s, h.held[0]):
+        bad.append((CL_NOSHARE, 'constructor'))
+    for name, args in inp['history']:
+        if not h.do(name, args if name not in h.quants else None):
+            print('operation raised:', h.failed)
+            break
+    for b in bad:
+        print('fails:', b)
+    return not bad
+
+
+def run(ctx):
+    _run_main5(ctx)
+    extras5(ctx)
+    ctx.flush()
